@@ -102,8 +102,12 @@ pub struct ArcCase {
 }
 
 fn child_extract(exe: &Path, archive: &Path) -> Result<String, String> {
+    child_read(exe, archive, "extract")
+}
+
+fn child_read(exe: &Path, archive: &Path, what: &str) -> Result<String, String> {
     let mut cmd = Command::new(exe);
-    cmd.args(["child", "extract"]).arg(archive);
+    cmd.args(["child", what]).arg(archive);
     let o = run_cmd(cmd, Duration::from_secs(300)).map_err(|e| format!("cannot run {}: {}", exe.display(), e))?;
     if o.timed_out {
         return Err("extract child timed out".into());
@@ -124,7 +128,8 @@ pub fn check_archive(ctx: &Ctx, case: &ArcCase) -> Report {
     let token_rounds = c.params.single_file && c.n_contigs() as u32 >= c.params.pack;
     let mut rep = Report::pass(false)
         .label(if c.params.single_file { "mode:single-file" } else { "mode:multi-file" })
-        .label_if(token_rounds, "single-file>=pack-cardinality-contigs");
+        .label_if(token_rounds, "single-file>=pack-cardinality-contigs")
+        .label_if(c.params.queue_capacity < c.largest_contig() as u64, "queue-smaller-than-a-contig");
     let exe = std::env::current_exe().expect("exe");
     let mut outs = Vec::new();
     for (which, bin) in [("release", &ctx.ragc), ("checked", &ctx.ragc_checked)] {
@@ -172,6 +177,24 @@ pub fn check_archive(ctx: &Ctx, case: &ArcCase) -> Report {
     if !sums[0].1.starts_with("ok ") {
         return Report { verdict: Verdict::Fail(format!("created archive cannot be extracted: {}", sums[0].1)), ..rep };
     }
+    // every other read-side query (lengths, ranges around the ends, descriptor tables, statistics,
+    // reference segments) on the release archive, by both builds of the reader
+    let mut q = Vec::new();
+    for (which_r, r) in [("release", exe.as_path()), ("checked", ctx.vcheck_checked.as_path())] {
+        match child_read(r, &rel.1, "queries") {
+            Ok(s) => {
+                if overflow_panic(&s) {
+                    return Report { verdict: Verdict::Fail(format!("length / range / table queries with the {} reader: {}", which_r, s)), ..rep };
+                }
+                q.push(s);
+            }
+            Err(e) => return Report::inconclusive(e),
+        }
+    }
+    if q[0] != q[1] {
+        return Report { verdict: Verdict::Fail(format!("length / range / table queries differ between build profiles: release -> {}, checked -> {}", q[0], q[1])), ..rep };
+    }
+    rep = rep.label_if(q[0].starts_with("ok "), "queries-compared");
     // byte identity where creation is deterministic anyway (multi-file, token-free single-file)
     if !token_rounds {
         let (b1, b2) = (std::fs::read(&rel.1).unwrap_or_default(), std::fs::read(&chk.1).unwrap_or_default());
@@ -202,7 +225,14 @@ fn arc_strategy() -> impl Strategy<Value = ArcCase> {
         ArcCase { collection: c }
     });
     let general = gen::collection_strategy(GenCfg { max_contig: 4000, max_samples: 4, many_samples_pct: 3, single_file: None, vary_presentation: false, swarm_pct: 0 }).prop_map(|collection| ArcCase { collection });
-    prop_oneof![3 => many_contigs, 2 => general]
+    // a fifth of the cases with a queue smaller than the largest contig (admitted once the queue is empty)
+    (prop_oneof![3 => many_contigs, 2 => general], prop_oneof![4 => Just(0u32), 1 => 1u32..256]).prop_map(|(mut c, frac)| {
+        if frac > 0 {
+            let largest = c.collection.largest_contig() as u64;
+            c.collection.params.queue_capacity = (largest * frac as u64 / 256).max(1);
+        }
+        c
+    })
 }
 
 pub fn run(ctx: &Ctx, stats: &mut Stats) {
@@ -238,7 +268,7 @@ pub fn replay(ctx: &Ctx, stage: &str, case: &Value) -> Report {
 pub const INFO: PropInfo = PropInfo {
     id: "C18",
     level: "exploration",
-    rule: "differential testing across two builds of the same tree: release and release+overflow-checks (CLI and harness both built twice). (1) archives: generated collections, 3/5 of them one PanSN file with at least -l contigs (-l 1..8, so many sync-token rounds; a third with > 50 samples), the rest the general C01 space; created by both ragc builds, both archives extracted by both reader builds; oracle: same exit class, all four extractions equal and ok, byte-identical archives wherever creation is deterministic anyway (multi-file, single-file below -l contigs; a difference is blamed on the profile only when two release runs agree), and no 'attempt to ... with overflow' panic anywhere. (2) LZ cost: batches of 400 (reference, target, min match) pairs from the C09 generators through estimate (bound max and 8), get_coding_cost_vector (prefix and suffix) and encode in both builds; oracle: identical results, no overflow panic. (3) the truncated-archive space runs in both builds under C14. Non-trivial archive case = one PanSN file with >= -l contigs, or >= 2 samples; distinct = distinct case.",
+    rule: "differential testing across two builds of the same tree: release and release+overflow-checks (CLI and harness both built twice). (1) archives: generated collections, 3/5 of them one PanSN file with at least -l contigs (-l 1..8, so many sync-token rounds; a third with > 50 samples), the rest the general C01 space; created by both ragc builds, both archives extracted by both reader builds; a fifth of the cases with --queue-capacity below the largest contig; oracle: same exit class, all four extractions equal and ok, the other read-side queries (get_contig_length, get_contig_range around both ends, descriptor tables, group statistics, reference segments) equal between the two reader builds, byte-identical archives wherever creation is deterministic anyway (multi-file, single-file below -l contigs; a difference is blamed on the profile only when two release runs agree), and no 'attempt to ... with overflow' panic anywhere. (2) LZ cost: batches of 400 (reference, target, min match) pairs from the C09 generators through estimate (bound max and 8), get_coding_cost_vector (prefix and suffix) and encode in both builds; oracle: identical results, no overflow panic. (3) the truncated-archive space runs in both builds under C14. Non-trivial archive case = one PanSN file with >= -l contigs, or >= 2 samples; distinct = distinct case.",
     assumptions: &["debug assertions are off in both builds, so integer overflow checking is the only difference", "C14 carries the prefix space for both profiles"],
     needs_cli: true,
     needs_checked: true,
